@@ -296,8 +296,72 @@ def run_label_keys(chk, spec):
 	if len(cols) < 2 or cols[0] != exp_keys or cols[-1] != exp_sums:
 		chk.fail("one row per distinct key tuple / every row its group's value (the key is the column the caller named)", f"{spec['op']}/key-values/label-key", f"{spec!r}: over={sp[kx]!r} (label {lab[kx]!r}): {short(cols, 160)}, expected keys {exp_keys} sums {exp_sums}")
 
+def directed_specs(op):
+	"""requests whose shape - not their data - is the point: every built-in at once, one column asked for twice, key / apply labels that look like
+	generated output names, two aggregated columns that differ only in cells Python's hash() cannot tell apart"""
+	n = 6
+	k = ["a", "b", "a", "b", "a", "c"]
+	v = [3, 1, 4, 1, 5, 9]
+	w = [2.5, None, 0.5, 4.0, None, 1.0]
+	name = lambda nm: {"mode": "name", "name": nm}
+	vec = lambda nm: {"mode": "vector", "name": nm}
+	base = {"op": op, "n": n, "scalar_over": False, "apply": [], "over_form": "list", "aggs_form": "list"}
+	out = []
+	# all six built-ins in one call (column order of the result), on one and on two columns
+	out.append(dict(base, table={"names": ["k", "v", "w"], "cols": [k, v, w]}, over=[name("k")], aggs={f: [name("v")] for f in ("sum", "mean", "min", "max", "count", "stdev")}))
+	out.append(dict(base, table={"names": ["k", "v", "w"], "cols": [k, v, w]}, over=[name("k")], aggs={"stdev": [name("v"), vec("w")], "count": [name("w"), name("v")]}))
+	out.append(dict(base, table={"names": ["k", "v", "w"], "cols": [k, v, w]}, over=[vec("k")], aggs={"count": [name("v")], "stdev": [name("v")]}, apply=[{"out": "v_count2", "col": name("w"), "fn": "builtin-len"}]))
+	# labels that look like generated names
+	out.append(dict(base, table={"names": ["v_sum2", "v"], "cols": [k, v]}, over=[name("v_sum2")], aggs={"sum": [name("v"), name("v")]}))
+	out.append(dict(base, table={"names": ["v_sum2", "v", "v_sum"], "cols": [k, v, [1, 1, 2, 2, 3, 3]]}, over=[name("v_sum2"), name("v_sum")], aggs={"sum": [name("v"), vec("v"), name("v")]}))
+	out.append(dict(base, table={"names": ["a2", "a", "v"], "cols": [k, [1, 1, 2, 2, 1, 1], v]}, over=[name("a2"), name("a"), {"mode": "external", "values": [0, 0, 0, 1, 1, 1], "name": "a"}], aggs={"max": [name("v")]}))
+	out.append(dict(base, table={"names": ["k", "k2", "v"], "cols": [k, [1, 1, 2, 2, 1, 1], v]}, over=[name("k"), {"mode": "external", "values": [0, 0, 0, 1, 1, 1], "name": "k"}, name("k2")], aggs={"sum": [name("v")]}))
+	out.append(dict(base, table={"names": ["k", "x"], "cols": [k, v]}, over=[name("k")], aggs={"sum": [name("x"), name("x")]}, apply=[{"out": "x_sum2", "col": name("x"), "fn": "builtin-max"}]))
+	# columns that differ only in hash-colliding cells
+	big = 2 ** 61 - 1
+	for x, y in (([-1, 5, -1, 2, -1, 0], [-2, 5, -2, 2, -2, 0]), ([0, 7, 0, 1, 3, 3], [big, 7, big, 1, 3, 3]), ([1, 2, 3, 4, 5, 6], [1 + big, 2, 3, 4, 5, 6])):
+		out.append(dict(base, table={"names": ["k", "x", "y"], "cols": [k, x, y]}, over=[name("k")], aggs={"sum": [name("x"), name("y")], "min": [vec("x"), vec("y")], "max": [name("y"), name("x")], "mean": [name("x"), name("y")]}))
+		out.append(dict(base, table={"names": ["k", "x", "y"], "cols": [k, x, y]}, over=[name("k")], aggs={"count": [name("x"), name("y")], "stdev": [name("x"), name("y")]}))
+	return out
 
-RUNNERS = {"aggregate": run_aggregate, "vector_agree": run_vector_agree, "agg_chain": run_agg_chain, "label_keys": run_label_keys}
+
+def run_nested_apply(chk, spec):
+	"""an apply function that itself asks the SAME table for another aggregate / window (other keys): the outer call's groups are its own"""
+	op, inner = spec["op"], spec["inner"]
+	k = ["a", "b", "a", "b", "a", "c"]
+	g = [1, 1, 2, 2, 2, 1]
+	v = [3, 1, 4, 1, 5, 9]
+	t = Table({"k": list(k), "g": list(g), "v": list(v)})
+	calls = []
+	def nested(vals):
+		r = getattr(t, inner)(over="g", sum_over="v", apply={"n": ("k", len)})
+		calls.append(len(r))
+		return len(vals)
+	fn = getattr(t, op)
+	o = call(lambda: fn(over="k", apply={"first": ("v", nested), "second": ("v", lambda vals: sum(vals)), "third": ("g", max)}, max_over="v", count_over="g"))
+	chk.judged(op if op == "aggregate" else "aggregate", ("nested-apply", op, inner))
+	if not o.ok:
+		chk.fail(f"{op} computes every admissible request", f"{op}/raises/nested-apply/{type(o.exc).__name__}", f"{spec!r}: {o!r}")
+		return
+	groups = model_groups([k], 6)
+	per = {key[0]: rows for key, rows in groups}
+	exp = {"first": {kk: len(rows) for kk, rows in per.items()}, "second": {kk: sum(v[i] for i in rows) for kk, rows in per.items()}, "third": {kk: max(g[i] for i in rows) for kk, rows in per.items()},
+		"v_max": {kk: max(v[i] for i in rows) for kk, rows in per.items()}, "g_count": {kk: len(rows) for kk, rows in per.items()}}
+	names, cols = J.cells(o.value)
+	keycol = cols[0]
+	for nm, want in exp.items():
+		if nm not in names:
+			chk.fail(f"{op} returns one column per requested aggregate", f"{op}/nested-apply/column-missing", f"{spec!r}: {names!r} lacks {nm!r}")
+			return
+		got = cols[names.index(nm)]
+		for r, kk in enumerate(keycol):
+			if got[r] != want[kk]:
+				chk.fail("every output equals the function over THIS call's groups (an apply function may itself call aggregate / window on the table)", f"{op}/value/nested-apply/{inner}/{nm}",
+					f"{spec!r}: column {nm!r} row {r} (key {kk!r}) = {got[r]!r}, expected {want[kk]!r}; columns {short(dict(zip(names, cols)), 300)}")
+				return
+
+
+RUNNERS = {"nested_apply": run_nested_apply, "aggregate": run_aggregate, "vector_agree": run_vector_agree, "agg_chain": run_agg_chain, "label_keys": run_label_keys}
 RUNNERS["recompute"] = recompute.runner("C12")
 
 
@@ -343,6 +407,10 @@ def chain_cases(chk, second_op):
 
 
 def run(chk):
+	for spec in directed_specs("aggregate"):
+		chk.case("aggregate", spec, "aggregate-directed")
+	for inner in ("aggregate", "window"):
+		chk.case("nested_apply", {"op": "aggregate", "inner": inner}, "nested-apply")
 	recompute.add_cases(chk, "C12")
 	rng = chk.rng
 	for spec in exhaustive_specs(chk, "aggregate"):
@@ -369,6 +437,14 @@ def run(chk):
 		if rng.random() < 0.4:
 			spec["presort"] = (rng.random() < 0.5, rng.random() < 0.5)
 		chk.case("vector_agree", spec, "vector-agree")
+	# a large offset with a small spread (timestamps, ids, money in cents): int data, int data that a write promoted to float in place, float data
+	for base_ in (10 ** 8, 10 ** 9, 123456789012, 2 ** 53):
+		for n in (3, 5, 12):
+			vals = [base_ + rng.choice([0, 1, 2, 3, 5, 8]) for _ in range(n)]
+			chk.case("vector_agree", {"values": vals, "kind": "int-large-offset", "key": "g"}, "vector-agree-ill-conditioned")
+			chk.case("vector_agree", {"values": vals, "kind": "int-promoted-large-offset", "key": "g", "writes": [([0], [float(vals[0]) + 0.5])]}, "vector-agree-ill-conditioned")
+			chk.case("vector_agree", {"values": vals, "kind": "int-promoted-large-offset", "key": "g", "writes": [([n - 1, 0], [None, float(base_) + 1.5])], "idx_form": "vector"}, "vector-agree-ill-conditioned")
+			chk.case("vector_agree", {"values": [float(x) + 0.25 for x in vals], "kind": "float-large-offset", "key": "g"}, "vector-agree-ill-conditioned")
 	for _ in range(60 if chk.quick() else 400):
 		n = rng.choice([2, 3, 5])
 		vals = [rng.choice([1, 1.0, True, 0, 0.0, False, 2, 2.0, None]) for _ in range(n)] if rng.random() < 0.5 else [rng.choice([2.0, float("nan"), 1.0, -3.5, None]) for _ in range(n)]
